@@ -233,11 +233,23 @@ def evaluate(case) -> Verdict:
     data = {"one": [1], "me": "t0"}
 
     def go():
-        return env.get_template(entry).render(**data)
+        if case.get("api") != "async":
+            return env.get_template(entry).render(**data)
+        import asyncio
+
+        async def main():
+            t = await env.get_template_async(entry)
+            return await t.render_async(**data)
+
+        loop = asyncio.new_event_loop()  # (a loop of its own: a budget exception may leave it in any state)
+        try:
+            return loop.run_until_complete(main())
+        finally:
+            loop.close()
 
     o, steps, cpu = run_traced(go, RENDER_BUDGET)
     where = f"{case['edge']}:{'+'.join(case['kinds'])}"
-    desc = f"edge={case['edge']} kinds={case['kinds']} depth={case['d']} fan={case.get('fan', 1)} mode={mode}"
+    desc = f"edge={case['edge']} kinds={case['kinds']} depth={case['d']} fan={case.get('fan', 1)} mode={mode} api={case.get('api', 'sync')}"
     if o[0] == "budget":
         v.fail(f"render:step-budget:{case['edge']}:{mode}", f"{desc}: no result within {RENDER_BUDGET} line events")
     elif o[0] == "crash":
@@ -394,13 +406,17 @@ def families(tier: str, seed: int = 0):
                 for mode in ("strict", "lax"):
                     if quick and mode == "lax" and j:
                         continue
-                    case = {"kind": "family", "edge": edge, "kinds": kinds, "d": d, "mode": mode}
-                    if edge == "extends":
-                        for cyc in (1, 2, 3):
-                            yield dict(case, cycle=cyc)
-                            yield dict(case, cycle=cyc, folder=True)
-                    else:
-                        yield case
+                    # both render APIs (the async one recurses through coroutines): quick alternates, thorough takes both
+                    for api in (("sync", "async")[(n + j + seed) % 2:][:1] if quick else ("sync", "async")):
+                        case = {"kind": "family", "edge": edge, "kinds": kinds, "d": d, "mode": mode}
+                        if api == "async":
+                            case["api"] = "async"
+                        if edge == "extends":
+                            for cyc in (1, 2, 3):
+                                yield dict(case, cycle=cyc)
+                                yield dict(case, cycle=cyc, folder=True)
+                        else:
+                            yield case
 
 
 def _campaign(ctx: core.Ctx, tier: str, shard: int, nshards: int) -> None:
@@ -429,6 +445,8 @@ def _campaign(ctx: core.Ctx, tier: str, shard: int, nshards: int) -> None:
                     j += 1
                     if j % nshards == shard:
                         ctx.run({"kind": "family", "edge": edge, "kinds": ["if"], "d": d, "mode": mode, "fan": fan}, enumerated=True)
+                        if not quick or (j // nshards) % 2:
+                            ctx.run({"kind": "family", "edge": edge, "kinds": ["if"], "d": d, "mode": mode, "fan": fan, "api": "async"}, enumerated=True)
     core.drive(sources(), ctx.run, n=(4000 if quick else 100000) // nshards, seed=core.sub_seed(ctx.seed, shard))
 
 
